@@ -417,7 +417,42 @@ static void doubling_scenario(Rng& r) {
   count("doubling_scenarios_beyond_2p32");
 }
 
+
+// digests read from the reference implementation's big-endian formats with HEAVY first / last centroids (digests built by
+// update()/merge() always have singleton end centroids): tail interpolation in get_quantile / get_rank
+template<typename T>
+static void reference_format_scenario(Rng& r) {
+  const bool small_fmt = r.coin();                       // asSmallBytes (floats) or asBytes (doubles)
+  const int nc = int(r.range(2, 12));
+  std::vector<double> means; std::vector<uint32_t> wts;
+  double x = (r.unit() - 0.5) * 100;
+  uint64_t total = 0;
+  for (int i = 0; i < nc; ++i) { x += 0.5 + r.unit() * 10; means.push_back(small_fmt ? double(float(x)) : x); const uint32_t w = (i == 0 || i == nc - 1) ? uint32_t(r.range(1, 40)) : uint32_t(r.range(1, 60)); wts.push_back(w); total += w; }
+  const double mn = (wts.front() > 1 ? means.front() - r.unit() * 5 - 0.25 : means.front());
+  const double mx = (wts.back() > 1 ? means.back() + r.unit() * 5 + 0.25 : means.back());
+  const uint16_t k = uint16_t(r.range(20, 300));
+  std::vector<uint8_t> b = {0, 0, 0, uint8_t(small_fmt ? 2 : 1)};
+  auto be = [&](const void* p, size_t n) { const uint8_t* q = static_cast<const uint8_t*>(p); for (size_t i = n; i-- > 0;) b.push_back(q[i]); };
+  be(&mn, 8); be(&mx, 8);
+  if (!small_fmt) { const double kd = k; be(&kd, 8); const uint32_t n32 = uint32_t(nc); be(&n32, 4); for (int i = 0; i < nc; ++i) { const double w = wts[i]; be(&w, 8); be(&means[i], 8); } }
+  else { const float kf = k; be(&kf, 4); const uint32_t unused = 0; be(&unused, 4); const uint16_t n16 = uint16_t(nc); be(&n16, 2); for (int i = 0; i < nc; ++i) { const float w = float(wts[i]), m = float(means[i]); be(&w, 4); be(&m, 4); } }
+  describe(std::string("reference-format image ") + tname<T>() + (small_fmt ? " small" : " full") + " centroids=" + std::to_string(nc) + " first_w=" + std::to_string(wts.front()) + " last_w=" + std::to_string(wts.back()));
+  Model<T> m; m.n = total; m.mn = static_cast<T>(mn); m.mx = static_cast<T>(mx);
+  for (double v : means) m.vals.push_back(static_cast<T>(v));
+  const bool stream = r.coin();
+  std::unique_ptr<tdigest<T>> td;
+  try {
+    if (stream) { std::stringstream ss(std::string(reinterpret_cast<const char*>(b.data()), b.size())); td.reset(new tdigest<T>(tdigest<T>::deserialize(ss))); }
+    else td.reset(new tdigest<T>(tdigest<T>::deserialize(b.data(), b.size())));
+  } catch (const std::exception& e) { checked(); fail(std::string("tdigest|") + tname<T>() + "|reference-format|valid-image-rejected", G().cur_desc + " what=" + e.what()); return; }
+  observe(*td, m, r, stream ? "reference-format image (stream)" : "reference-format image (bytes)", k);
+  if (wts.front() > 1) count("reference_format_heavy_first_centroid");
+  if (wts.back() > 1) count("reference_format_heavy_last_centroid");
+  count("reference_format_scenarios");
+}
+
 void run_case(uint64_t idx, Rng& r) {
+  if (idx % 10 == 2) { if (r.coin()) reference_format_scenario<double>(r); else reference_format_scenario<float>(r); return; }
   if (idx % 50 == 9) { if (r.coin()) doubling_scenario<double>(r); else doubling_scenario<float>(r); return; }
   if (idx % 10 == 5) { if (r.coin()) tiny_weight_large_k_scenario<double>(r); else tiny_weight_large_k_scenario<float>(r); return; }
   if (idx % 10 == 7) { if (r.coin()) frequent_query_scenario<double>(r); else frequent_query_scenario<float>(r); return; }
